@@ -369,6 +369,11 @@ func checkShadowAndAppend(fields *[]*Field, field *Field) {
 			f.isShadowed = true
 		} else if field.depth > f.depth {
 			field.isShadowed = true
+		} else if field.depth > 0 {
+			//promoted through two embedded structs at the same depth: the selector is ambiguous,
+			//Go promotes neither of them
+			f.isShadowed = true
+			field.isShadowed = true
 		}
 	}
 	*fields = append(*fields, field)
